@@ -355,6 +355,20 @@ HOSTS += [
     ("estr5", 5, lambda c: ([], EStr("a", c[0], "b", c[1], "c", c[2], "d", c[3], "e", c[4], "f"))),
     ("estr4", 4, lambda c: ([], EStr(c[0], c[1], "-", c[2], c[3]))),
 ]
+# the same chain hosts over receivers that are not plain arrays (their elements are 1, 2, 3 as well)
+for _rt, _rv in (("range", lambda: Range(Int(1), Int(4), Nil())), ("int", lambda: Int(3)), ("view", lambda: View(Arr(Int(9)), Arr(Int(1), Int(2), Int(3)))),
+                 ("range-step", lambda: Range(Int(1), Int(6), Int(2)))):
+    _sel2 = (lambda c: [If(Inf("==", Id("x"), Int(1)), c[0], If(Inf("==", Id("x"), Int(2 if True else 0)), c[1], c[2]))]) if _rt != "range-step" else \
+            (lambda c: [If(Inf("==", Id("x"), Int(1)), c[0], If(Inf("==", Id("x"), Int(3)), c[1], c[2]))])
+    HOSTS += [
+        (f"chain-list-lit-{_rt}", 3, lambda c, rv=_rv, sel=_sel2: ([], LCall(rv(), Fn(["x"], sel(c)), main="@"))),
+        (f"chain-lonely-var-{_rt}", 3, lambda c, rv=_rv, sel=_sel2: ([Asg("g", Fn(["x"], sel(c)))], VCall(rv(), "g", main="@", add="&"))),
+        (f"chain-reduce-lit-{_rt}", 3, lambda c, rv=_rv, sel=_sel2: ([], LCall(rv(), Fn(["acc", "x"], [Arr(Id("acc"), sel(c)[0])]), main="$", carg=Int(0)))),
+        (f"chain-reduce-var-{_rt}", 3, lambda c, rv=_rv, sel=_sel2: ([Asg("g", Fn(["acc", "x"], [Arr(Id("acc"), sel(c)[0])]))], VCall(rv(), "g", main="$", carg=Int(0)))),
+        (f"chain-reduce-lonely-lit-{_rt}", 3, lambda c, rv=_rv, sel=_sel2: ([], LCall(rv(), Fn(["acc", "x"], [Arr(Id("acc"), sel(c)[0])]), main="$", add="&", carg=Int(0)))),
+        (f"chain-reduce-prop-{_rt}", 3, lambda c, rv=_rv, sel=_sel2: ([Asg("a0", Obj(("t", Int(0)), ("ustep", Fn(["x"], [Obj(("t", sel(c)[0]), ("ustep", Idx(Id("self"), Str("ustep"))))], method=True))))],
+                                                                    PCall(PCall(rv(), "ustep", [], main="$", carg=Id("a0")), "t"))),
+    ]
 RAISERS = [("Err", lambda: Raise("Err", "boom")), ("StopIterErr", lambda: Raise("StopIterErr", "mine")), ("div0", lambda: Inf("/", Int(1), Int(0))), ("name", lambda: Id("undefinedname")),
            ("noprop", lambda: PCall(Int(1), "nosuchprop"))]
 WRAPS = ["top", "func", "method", "literal", "func-defer"]
